@@ -134,10 +134,15 @@ def check_case(r, ctx):
         ctx.nontrivial()
 
 
+HEAVY = {"Scenario", "LaneletNetwork", "Lanelet", "DynamicObstacle"}
+MEDIUM = {"MBState", "StaticObstacle", "TrajectoryPrediction", "AreaBorder", "Area", "PlanningProblem",
+          "PlanningProblemSet", "ScenarioID", "STDState", "SetBasedPrediction", "GoalRegion"}
+
+
 def _facet(name):
-    heavy = name in ("Scenario", "LaneletNetwork", "DynamicObstacle", "Lanelet", "MBState", "PlanningProblemSet")
-    return Facet(name, check_case, strategy=lambda tier, n=name: K.case(n), quick=300, thorough=10000,
-                 shards_quick=2 if heavy else 1, shards_thorough=8,
+    quick, shards = (400, 4) if name in HEAVY else ((800, 2) if name in MEDIUM else (1200, 1))
+    return Facet(name, check_case, strategy=lambda tier, n=name: K.case(n), quick=quick, thorough=10000,
+                 shards_quick=shards, shards_thorough=8,
                  rule="%s: recipe over every constructor parameter (incl. left at default) x one perturbation per "
                       "parameter x set re-insertion; non-trivial = obliging perturbation, permutation with different "
                       "iteration order, or a defaulted argument" % name)
